@@ -57,7 +57,13 @@ void h_run(Case &c) {
   // special children to combine on both sides (seeded change C02: the merged parent's misc_arity)
   if (so.misc_keep && d.chance(1, 3)) { int k = d.range(1, 3); auto objs = all_objs(t); std::vector<hwloc_obj_t> cand; for (auto o : objs) if (o->cpuset && o->parent && !hwloc_obj_type_is_memory(o->type)) cand.push_back(o);
     for (int i = 0; i < k && !cand.empty(); i++) { hwloc_obj_t o = cand[d.raw() % cand.size()]; hwloc_obj_t m1 = hwloc_topology_insert_misc_object(t, o, "below-child"), m2 = hwloc_topology_insert_misc_object(t, o->parent, "below-parent"); CHECK(c, m1 && m2, "misc_insert", "Misc insertion failed although the Misc filter keeps them"); c.descf("\n | start: Misc below %s#%u and below its parent", hwloc_obj_type_string(o->type), o->logical_index); }
-    require_wf(c, t, "after the initial Misc insertions"); c.cls("start:misc-on-parent-and-child"); }
+    require_wf(c, t, "after the initial Misc insertions"); c.cls("start:misc-on-parent-and-child");
+    // half of these starts continue with a restrict to one decorated object's cpuset (or to one of its children's): everything above it becomes
+    // a single-child chain, which is what makes levels merge
+    if (d.chance(1, 2) && !cand.empty()) { hwloc_obj_t o = cand[d.raw() % cand.size()]; if (o->first_child && d.chance(1, 2)) o = o->first_child; hwloc_bitmap_t set = hwloc_bitmap_dup(o->cpuset);
+      static const unsigned long fl[] = {0, HWLOC_RESTRICT_FLAG_ADAPT_MISC, HWLOC_RESTRICT_FLAG_ADAPT_MISC | HWLOC_RESTRICT_FLAG_ADAPT_IO, HWLOC_RESTRICT_FLAG_REMOVE_CPULESS, HWLOC_RESTRICT_FLAG_REMOVE_CPULESS | HWLOC_RESTRICT_FLAG_ADAPT_MISC}; unsigned long f = d.pick(fl);
+      std::string ty = hwloc_obj_type_string(o->type); unsigned li = o->logical_index; int r = hwloc_topology_restrict(t, set, f); c.descf("\n | start: restrict(cpuset of %s#%u %s, flags=0x%lx)=%d", ty.c_str(), li, bstr(set).c_str(), f, r); hwloc_bitmap_free(set);
+      require_wf(c, t, "after the initial restrict to a decorated object"); c.cls("start:restrict-to-decorated-object"); } }
   run_history(c, t, known_exclusions());
   hwloc_topology_destroy(t);
 }
